@@ -238,6 +238,11 @@ impl Verify for FixedLpc {
         for (t, v) in self.warm_up().iter().enumerate() {
             verify_sample_range!("warm_up[{t}]", *v, self.bits_per_sample())?;
         }
+        verify_true!(
+            "warm_up.len",
+            self.order() == self.residual().warmup_length(),
+            "must be equal to the warm-up length of the residual"
+        )?;
         self.residual()
             .verify()
             .map_err(|err| err.within("residual"))
@@ -253,6 +258,12 @@ impl Verify for Lpc {
         for (t, v) in self.warm_up().iter().enumerate() {
             verify_sample_range!("warm_up[{t}]", *v, self.bits_per_sample())?;
         }
+        verify_range!("order", self.order(), 1..)?;
+        verify_true!(
+            "warm_up.len",
+            self.warm_up().len() == self.order() && self.order() == self.residual().warmup_length(),
+            "must be equal to the LPC order and the warm-up length of the residual"
+        )?;
         self.residual()
             .verify()
             .map_err(|err| err.within("residual"))
